@@ -76,9 +76,9 @@ R = [
     (r"analysis_runner\.rs", r"cache_template|cache_function|take_template|take_function", r"unwrap\(\)", "guarded", "the entry was inserted (or its presence checked) a few lines above"),
     (r"circom_algebra/src/modular_arithmetic\.rs", r"complement_256", r"from_radix_le", "guarded", "the digits are 0/1 and the radix is 2"),
     # ---- utils/environment.rs -----------------------------------------------------------------------
-    (r"utils/environment\.rs", r"^remove_variable_block$", r"assert!", "invariant",
-     "scopes are pushed and popped in pairs around blocks (Model/UniqueVars enter/exit events), and the environment starts with one block"),
-    (r"utils/environment\.rs", r"^add_variable$", r"", "invariant", "the environment always has at least one block (see remove_variable_block)"),
+    (r"utils/environment\.rs", r"^remove_variable_block$", r"assert!", "proved",
+     "theorem:C01_ssa_scopes_nonempty — the environment starts with one block and scopes are pushed and popped in pairs (around dominator-tree children in SSA conversion, around blocks in unique_vars: Model/UniqueVars enter/exit events), so the stack below the innermost block is never touched"),
+    (r"utils/environment\.rs", r"^add_variable$", r"", "proved", "theorem:C01_ssa_scopes_nonempty — the environment always has at least one block"),
     (r"utils/environment\.rs", r"^get_variable$|^get_mut_variable$", r"", "guarded", "VariableBlock::get_variable is only called after contains_variable returned true"),
     (r"utils/environment\.rs", r"merge|_or_break", r"", "dead-api", "unused parts of the environment type inherited from the compiler"),
 ]
